@@ -12,7 +12,8 @@ META = {
             "completes at most once and no done() runs twice; a successful result is the decoded body of a later "
             "frame carrying the call's own id and type; short, unknown-id, duplicate, mistyped and truncated frames "
             "touch no other call and never end the transport; an answered call completes with exactly the peer's "
-            "fields. The model is tied to /repo on every run by statement skeletons regenerated from transport.go "
+            "fields (ids are compared in full: replies at every power-of-two and every small distance from an "
+            "outstanding id, and calls answered after up to 1023 younger ones, are part of the histories). The model is tied to /repo on every run by statement skeletons regenerated from transport.go "
             "(ownership of the pending table, order of the type check, fetch-removes, error assignment before "
             "done) and by scripted adversarial-peer histories run against the real transport and replayed inside "
             "Coq.",
@@ -240,7 +241,7 @@ def run(ck):
                           "observed": small["callers"]})
     ck.coverage["frame_kinds"] = kinds
     ck.coverage["callers_total"] = sum(len(c.get("callers", [])) for c in cases)
-    for c in cases[:1] + cases[4:6]:
+    for c in cases[:1] + cases[4:5] + cases[9:10]:      # (5..8 are the long fixed histories)
         ck.sample({"stream": c["stream"], "steps": c["steps"],
                    "callers": [(x["k"], x["kind"], x["res"]) for x in c["callers"]]})
 
@@ -252,8 +253,10 @@ def run(ck):
         hist = ck.coverage.setdefault("model_completions", {})
         names = {0: "ok", 11: "alreadyshutdown", 12: "send-failed", 13: "eof", 14: "toolong", 15: "lenoverflow"}
 
-        def eval_shard(s0):
-            part = cases[s0:s0 + shard]
+        nsh = max(1, (len(cases) + shard - 1) // shard)     # interleaved shards: the long histories spread out
+
+        def eval_shard(k):
+            part = cases[k::nsh]
             txt = ("From Coq Require Import List NArith ZArith String.\n"
                    "From Verif Require Import Lib.Bytes Sni.Wire Sni.WireCorr Sni.Rpc Sni.RpcCorr.\n"
                    "Import ListNotations.\nLocal Open Scope N_scope.\nLocal Open Scope string_scope.\n"
@@ -262,19 +265,20 @@ def run(ck):
                    "Definition R := Eval vm_compute in eval_all cases.\n"
                    "Definition M := Eval vm_compute in fst R.\nPrint M.\n"
                    "Definition T := Eval vm_compute in snd R.\nPrint T.\n")
-            return s0, ck.coq_eval("cases_%d" % (s0 // shard), txt)
+            return k, ck.coq_eval("cases_%d" % k, txt)
 
-        with ThreadPoolExecutor(max_workers=6) as ex:
-            results = list(ex.map(eval_shard, range(0, len(cases), shard)))
-        for s0, (rc, out) in results:
+        with ThreadPoolExecutor(max_workers=8) as ex:
+            results = list(ex.map(eval_shard, range(nsh)))
+        for k, (rc, out) in results:
             got = vlib.parse_coq_list_of_nat(out, "M") if rc == 0 else None
             if got is None:
                 ck.broken.append({"what": "correspondence evaluation failed", "detail": out[-1500:]})
                 break
-            mism += [s0 + i for i in got]
+            mism += [k + nsh * i for i in got]
             for t in vlib.parse_coq_list_of_nat(out, "T") or []:
                 nm = names.get(t, str(t))
                 hist[nm] = hist.get(nm, 0) + 1
+        mism.sort()
         ck.coverage["correspondence_cases"] = len(cases)
         ck.coverage["correspondence_mismatches"] = len(mism)
         for i in mism[:50]:
@@ -297,8 +301,11 @@ def run(ck):
                  "harness/cmd/c03 + harness/rpcx + checks/c03.py", "sniproxy/verif_rpc.go shim",
                  "abstraction of goroutine interleavings to wire order (ownership obligations)",
                  "modelled not verified: gorilla/websocket framing, Go channels and select"],
-        rule="fixed histories (send failure, mistyped frame, error byte) then seeded histories over streams "
-             "{perm, bad, mixed, sendfail, errbyte, shutdown, hint, peerclose, cancel}: 1-32 concurrent callers of 7 "
+        rule="fixed histories (send failure, mistyped frame, error byte; replies of the right type whose id lies "
+             "2^1..2^63, 1..1100 or a random multiple beyond the highest outstanding id; one call left unanswered "
+             "while 127 / 255 / 1023 younger ones are issued and answered, then the old and the newest answered in "
+             "that order) then seeded histories over streams "
+             "{perm, bad, mixed, sendfail, errbyte, shutdown, hint, peerclose, cancel, alias, held}: 1-32 concurrent callers of 7 "
              "call kinds, replies in random order and bursts, duplicates, unknown ids, wrong type, truncated and "
              "over-long bodies, short packets, text messages; a history is non-trivial if it has >1 caller or >1 "
              "frame; distinct = distinct (script, per-caller results)",
